@@ -134,3 +134,46 @@ func c02Pairs() []pairScenario {
 	}
 	return []pairScenario{evalPair("DeletionProof gadget (engine, depth 1)", [2]c02Case{pick[0], pick[1]}, c02Eval)}
 }
+
+// fullCircuitPairs: two threads run the WHOLE circuits (Define through gnark's engine) of different shapes
+// on valid batches: anything Define keeps outside its own frame (packing buffers, path scratch, cached
+// tables) is then shared between two definitions that are in progress at the same time.
+func fullCircuitPairs() []pairScenario {
+	insV := func(d, b int) c01Case {
+		m := insSweepMenu(d, b, "full-engine-bn")
+		return m[0]
+	}
+	delV := func(d, b int) c02Case {
+		m := delSweepMenu(d, b, "full-engine-bn")
+		return m[0]
+	}
+	runIns := func(cs c01Case) string {
+		got, want, err := c01Eval(&cs, nil, nil)
+		if err != nil {
+			return "error: " + err.Error()
+		}
+		return "got=" + got + " want=" + want
+	}
+	runDel := func(cs c02Case) string {
+		got, want, err := c02Eval(&cs, nil, nil)
+		if err != nil {
+			return "error: " + err.Error()
+		}
+		return "got=" + got + " want=" + want
+	}
+	i22, i11, d21 := insV(2, 2), insV(1, 1), delV(2, 1)
+	return []pairScenario{
+		{Name: "full InsertionMbuCircuit.Define (engine): (2,2) next to (1,1)", MaxBound: 1, Parallel: true, F: func(i int) string {
+			if i == 0 {
+				return runIns(i22)
+			}
+			return runIns(i11)
+		}},
+		{Name: "full InsertionMbuCircuit.Define (2,2) next to DeletionMbuCircuit.Define (2,1) (engine)", MaxBound: 1, Parallel: true, F: func(i int) string {
+			if i == 0 {
+				return runIns(i22)
+			}
+			return runDel(d21)
+		}},
+	}
+}
